@@ -76,6 +76,10 @@ def gen_cases(ctx):
         add(" " + k, "keyword-nearmiss")
         add(k[:-1], "keyword-nearmiss")
         add(k.replace("e", "é", 1) if "e" in k else k + "ı", "keyword-nearmiss")
+    # colour names of other vocabularies (CSS Color 4, X11) that are NOT SVG 1.1 keywords: Qt reads none of them
+    for s in ["rebeccapurple", "RebeccaPurple", "lightgoldenrod", "navyblue", "violetred", "grey0", "gray100", "darkslategray4", "mediumforestgreen", "lightslateblue", "currentcolor",
+              "accentcolor", "canvas", "linktext", "systemcolor", "orange1", "red1", "webgray", "x11gray"]:
+        add(s, "foreign-colour-name")
     for s in ["", "#", "rgb(1,2,3)", "rgba(0,0,0,0)", "0xff0000", "ff0000", "Qt::red", "#ff0000 ", " #ff0000", "##ff0000",
               "hsl(0,0%,0%)", "none", "currentColor", "inherit", "KHAKI", "grеy", "TRANSPARENT", "tRaNsPaReNt", "transparent\u0000"]:
         add(s, "other")
